@@ -129,9 +129,24 @@ Nm(n) == IF n = "" THEN "0" ELSE n
 ScopeId(l) == "scope_" \o Nm(l.t) \o "_" \o l.k1 \o "-" \o Nm(l.b1) \o "_" \o l.k2 \o "-" \o Nm(l.b2)
               \o "_" \o Nm(l.l) \o "_" \o l.pm
 
+\* ---------------------------------------------------------------- family timp: the imp layouts with enums as the declarations
+\* (names Ta, Tb[, Tc]; uses are matches with qualified variant patterns, in main only)
+TName(n) == "T" \o n
+TNames(ns) == [i \in 1..Len(ns) |-> TName(ns[i])]
+TForm(f) == [f EXCEPT !.names = TNames(f.names)]
+TImpProgram(l) ==
+  LET n1 == IF l.dl THEN "lib/m1" ELSE "m1"
+      n2 == IF l.dl THEN "lib/m2" ELSE "m2"
+      imps(n, f) == IF f.form = "none" THEN <<>> ELSE <<Imp(n, f.form, TNames(f.names), f.alias)>>
+      U == [i \in 1..Len(l.pool) |-> TUse(TName(l.pool[i]))]
+      main == FileRecT("main", imps(n1, l.f1) \o imps(n2, l.f2), TNames(l.dm), U, l.dl)
+      m1 == FileRecT(n1, imps(n2, l.f12), TNames(l.d1), <<>>, l.dl)
+      m2 == FileRecT(n2, <<>>, TNames(l.d2), <<>>, FALSE)
+  IN [files |-> <<main, m1, m2>>]
+
 \* ---------------------------------------------------------------- cases
-ProgramOf(l) == IF l.fam = "imp" THEN ImpProgram(l) ELSE ScopeProgram(l)
-IdOf(l) == IF l.fam = "imp" THEN ImpId(l) ELSE ScopeId(l)
+ProgramOf(l) == CASE l.fam = "imp" -> ImpProgram(l) [] l.fam = "timp" -> TImpProgram(l) [] OTHER -> ScopeProgram(l)
+IdOf(l) == CASE l.fam = "imp" -> ImpId(l) [] l.fam = "timp" -> "t" \o ImpId(l) [] OTHER -> ScopeId(l)
 Mode(prune, safe) == IF prune THEN (IF safe THEN "safe" ELSE "pruned") ELSE (IF safe THEN "fullsafe" ELSE "full")
 
 MkCase(l, v, variant) ==
@@ -152,7 +167,9 @@ CasesOf(l) ==
      \o (IF needSafe THEN <<MkCase(l, Verdict(P, [prune |-> FALSE, safe |-> TRUE]), "fullsafe")>> ELSE <<>>)
      \o (IF needSafe /\ needPruned THEN <<MkCase(l, Verdict(P, [prune |-> TRUE, safe |-> TRUE]), "safe")>> ELSE <<>>)
 
-Layouts == IF Fam = "imp" THEN ImpLayouts ELSE ScopeLayouts
+\* the enum layouts: the imp layouts without a missing file
+TImpLayouts == {[l EXCEPT !.fam = "timp"] : l \in {x \in ImpLayouts : ~x.miss}}
+Layouts == CASE Fam = "imp" -> ImpLayouts [] Fam = "timp" -> TImpLayouts [] OTHER -> ScopeLayouts
 LaySeq == SetToSeq(Layouts)
 \* two levels, so that TLC's workers share the enumeration: initial states are slices, their successors the layouts
 Init == lay \in {[fam |-> "slice", k |-> k] : k \in 0..(NSlices - 1)}
